@@ -701,6 +701,25 @@ func main() {
 	bound("ContentStoreModule_config", "Capacity", token.GTR, "k_ContentStoreModule_config_max_capacity", "18446744073709551616")
 	bound("RIBModule_register", "ExpirationPeriod", token.GTR, "k_RIBModule_register_max_expiration", "18446744073709551616")
 
+	// ---- makeStatusDataset: the single-segment limit `len(dataset) > N`
+	dsMax := ""
+	if fd := funcs["makeStatusDataset"]; fd != nil {
+		ast.Inspect(fd, func(n ast.Node) bool {
+			if ifs, ok := n.(*ast.IfStmt); ok {
+				if be, ok := ifs.Cond.(*ast.BinaryExpr); ok && be.Op == token.GTR && exprString(be.X) == "len(..)" {
+					if v, ok := eval(be.Y, env, 0); ok && dsMax == "" {
+						dsMax = strconv.FormatInt(v, 10)
+					}
+				}
+			}
+			return true
+		})
+	}
+	if dsMax == "" {
+		dsMax = "18446744073709551616"
+	}
+	w("Definition k_dataset_max_bytes : N := %s.   (* fw/mgmt/helpers.go makeStatusDataset: larger datasets are not published *)\n", dsMax)
+
 	// ---- status constants the model refers to but the source no longer has: placeholders, listed in k_missing_status
 	if modelPath != "" {
 		src, err := os.ReadFile(modelPath)
